@@ -39,6 +39,8 @@ def account_args(parts, meta, env):
     if pw != "" or via.get("password_explicit"):
         if via.get("password") == "env":
             env["PASSWORD"] = pw
+        elif via.get("password") == "sep" and not pw.startswith("-"):
+            argv += ["--password", pw]   # value as an argument of its own (clap refuses one that starts with a dash)
         else:
             argv += ["--password=" + pw]
     argv += selector_args(sel, via, env, "ACCOUNT_INDEX", "HD_PATH", "--account-index", "--hd-path")
